@@ -1056,3 +1056,39 @@ def r_dtype_buffer(ctx, f: FunctionInfo, param: str, rule="R-DTYPE"):
                "into it: mixed real/complex or int/float families are silently cast down", bad[0])
     else:
         ctx.ob(rule, f, key, True, "no such buffer")
+
+
+def r_dtype_default_buffer(ctx, f: FunctionInfo, param: str, rule="R-DTYPE"):
+    """Buffers created by np.zeros / np.empty / np.ones that receive (by item assignment) data deriving from the array
+    parameter `param` must be allocated with that parameter's dtype (or an explicit complex dtype): the default float64
+    buffer silently discards imaginary parts."""
+    model = ctx.model
+    og = origins(f)
+    bufs = {}
+    for n in walk_no_nested(f.node):
+        if isinstance(n, ast.Assign) and len(n.targets) == 1 and isinstance(n.targets[0], ast.Name) and isinstance(n.value, ast.Call):
+            k = model.resolve_call(f, n.value).key
+            if k in ("numpy.zeros", "numpy.empty", "numpy.ones", "numpy.full", "numpy.ndarray"):
+                dt = next((kw.value for kw in n.value.keywords if kw.arg == "dtype"), None)
+                ok = dt is not None and (og.derives_from(dt, param) or "complex" in unparse(dt))
+                bufs.setdefault(n.targets[0].id, []).append((n, ok))
+    n_recv = 0
+    bad = None
+    for n in walk_no_nested(f.node):
+        if isinstance(n, ast.Assign) and isinstance(n.targets[0], ast.Subscript):
+            b = n.targets[0].value
+            while isinstance(b, ast.Subscript):
+                b = b.value
+            if isinstance(b, ast.Name) and b.id in bufs and og.derives_from(n.value, param):
+                n_recv += 1
+                for alloc, ok in bufs[b.id]:
+                    if not ok:
+                        bad = (n, alloc)
+    key = f"buffers receiving slices of `{param}` are allocated with its dtype"
+    if bad:
+        ctx.ob(rule, f, key, False, f"`{unparse(bad[1])[:70]}` is a default-dtype (float64) buffer and `{unparse(bad[0])[:60]}` stores data of `{param}` into it: "
+               "complex entries are cast to real (imaginary parts discarded)", bad[0])
+    elif n_recv:
+        ctx.ob(rule, f, key, True, f"{n_recv} receiving store(s), all into buffers typed after `{param}`")
+    else:
+        ctx.ob(rule, f, key, None, "no receiving buffer found", required=False)
